@@ -4,7 +4,7 @@
     ApplyEvmMsg arithmetic.  This file holds only the exported statements. *)
 From Coq Require Import ZArith List Bool.
 Import ListNotations.
-Require Import Nib.C03.Model Nib.C03.Ref Nib.C03.Spec Nib.C03.Proofs.
+Require Import Nib.C03.Model Nib.C03.Ref Nib.C03.Spec Nib.C03.Msg Nib.C03.Proofs.
 Local Open Scope Z_scope.
 
 (** One step.  [R k0 f r]: the journaled StateDB [f] over keeper [k0] and the copy-stack reference
@@ -177,3 +177,72 @@ Theorem C03_hypotheses_nonvacuous :
   kwf empty_keeper /\ hist_wf' empty_keeper [ex_ops; ex_tx2] /\ ref_hist_wf empty_world [ex_ops; ex_tx2].
 Proof. exact (conj kwf_empty (conj ex_hist_nonvacuous ex_ref_hist_nonvacuous)). Qed.
 Print Assumptions C03_hypotheses_nonvacuous.
+
+(** * The message layer (Msg.v): histories of MsgEthereumTx, each delivered on its own cache-context
+    branch of the block state (ante chain, then Keeper.EthereumTx; written back only on success),
+    with the process-wide pointer Keeper.Bank.StateDB through which EthereumTx finds "the StateDB of
+    the transaction being delivered". *)
+
+(** When the published StateDB is forgotten on every return path ([deliver true]; the flag is
+    re-extracted from the source, Gen/C03Oblig.v), delivery from a chain with no published StateDB
+    is the pointer-free, branch-free specification — for histories of ANY length containing ANY mix
+    of messages rejected by the ante chain (not an EOA, funds below gas*price+value, wrong nonce),
+    rejected by ApplyEvmMsg (gas limit below the intrinsic gas) and executed — and no StateDB is
+    left behind. *)
+Theorem C03_message_delivery_is_specification :
+  forall ms st, ms_ptr st = None ->
+  ms_blk (fst (deliver_hist true st ms)) = fst (spec_hist (ms_blk st) ms) /\
+  snd (deliver_hist true st ms) = snd (spec_hist (ms_blk st) ms) /\
+  ms_ptr (fst (deliver_hist true st ms)) = None.
+Proof. exact deliver_hist_is_spec. Qed.
+Print Assumptions C03_message_delivery_is_specification.
+
+(** A rejected message leaves the block state exactly as it was (its branch is dropped). *)
+Theorem C03_rejected_message_has_no_effect :
+  forall c st m, snd (deliver c st m) = MRejected -> ms_blk (fst (deliver c st m)) = ms_blk st.
+Proof. exact rejected_no_effect. Qed.
+Print Assumptions C03_rejected_message_has_no_effect.
+
+(** Message histories against the reference (go-ethereum's state transition on the reference
+    world: preCheck + buyGas, intrinsic gas, one reference transaction, refundGas): for every
+    history whose executed messages obey the interpreter's protocol and move whole unibi at whole-
+    unibi gas prices, EVERY message gets the reference's verdict and, when executed, the reference's
+    return value for every call; the block state is the reference's world at the end — and after
+    every message (second theorem: every prefix). *)
+Theorem C03_message_history_equals_reference :
+  forall ms k w, kwf k -> weq (world_of k) w -> msgs_wf w ms ->
+  let r := deliver_hist true {| ms_blk := k; ms_ptr := None |} ms in
+  snd r = snd (ref_hist w ms) /\ weq (world_of (ms_blk (fst r))) (fst (ref_hist w ms)) /\
+  kwf (ms_blk (fst r)) /\ ms_ptr (fst r) = None.
+Proof. exact messages_equal_reference. Qed.
+Print Assumptions C03_message_history_equals_reference.
+
+Theorem C03_message_history_equals_reference_after_every_message :
+  forall ms1 ms2 k w, kwf k -> weq (world_of k) w -> msgs_wf w (ms1 ++ ms2) ->
+  weq (world_of (ms_blk (fst (deliver_hist true {| ms_blk := k; ms_ptr := None |} ms1)))) (fst (ref_hist w ms1)).
+Proof. exact messages_equal_reference_after_every_message. Qed.
+Print Assumptions C03_message_history_equals_reference_after_every_message.
+
+(** The variant that forgets the published StateDB only on the success path ([deliver false]) is
+    REFUTED: after a message whose gas limit is below the intrinsic gas, the next ordinary message
+    reports the same verdict and return values as the specification, but runs on the rejected
+    message's dropped branch — its SSTORE never reaches the block state. *)
+Theorem C03_msgs_stale_statedb_refuted :
+  let bad := deliver_hist false {| ms_blk := ex_k0; ms_ptr := None |} ex_msgs in
+  let good := spec_hist ex_k0 ex_msgs in
+  snd bad = snd good /\
+  snd good = [MRejected; MExecuted [[]; []; [0]; [0]; []; []; []]] /\
+  k_stor (fst good) 2 0 = 5 /\ k_stor (ms_blk (fst bad)) 2 0 = 0.
+Proof. exact stale_statedb_refuted. Qed.
+Print Assumptions C03_msgs_stale_statedb_refuted.
+
+(** Non-vacuity: that very history (rejected for its gas limit, then an ordinary call) meets the
+    hypotheses of the history theorem. *)
+Theorem C03_message_hypotheses_nonvacuous : kwf ex_k0 /\ msgs_wf (world_of ex_k0) ex_msgs.
+Proof. exact ex_msgs_nonvacuous. Qed.
+Print Assumptions C03_message_hypotheses_nonvacuous.
+
+(** The boolean checker evaluated on message-history traces is sound. *)
+Theorem C03_message_checker_sound : forall c, Pmsgs_b c = true -> Pmsgs c.
+Proof. exact Pmsgs_b_sound. Qed.
+Print Assumptions C03_message_checker_sound.
